@@ -280,7 +280,7 @@ def variants(base, rng=None, eq=None):
     return out
 
 
-def near_identical(bench):
+def near_identical(bench, light=False):
     """batches made of a base request followed by its one-attribute variants: a plain forced-mode request with an
     explicit transceiver power, a STRICT include list no route can honour (an amplifier of the opposite direction /
     nodes in an impossible order), a STRICT include list that can be honoured, an automatic-mode bidirectional one"""
@@ -290,9 +290,10 @@ def near_identical(bench):
         a, b = ('Vannes_KBE', 'Lorient_KMA') if bench.startswith('meshV2') else ('a', 'b')
         bases = [rq('A', a, b, tx_power=1e-4, power=1e-3, bw=200e9),
                  rq('C', b, a, mode=None, spacing=75e9, bidir=True, bw=300e9)]
-        keep = ('spacing', 'nch', 'bidir')
+        keep = {'A': ('spacing', 'nch', 'bidir'), 'C': ('spacing',) if light else ('spacing', 'nch', 'bidir')}
         return [(f'near-identical-{x["request-id"]}',
-                 loadable(bench, [x] + [v for v in variants(x) if v['request-id'].split('~')[1] in keep])) for x in bases]
+                 loadable(bench, [x] + [v for v in variants(x) if v['request-id'].split('~')[1] in keep[x['request-id']]]))
+                for x in bases]
     if bench.startswith('meshV2'):
         bases = [rq('A', 'Lannion_CAS', 'Lorient_KMA', tx_power=1e-4, power=1e-3, bw=200e9),
                  rq('D', 'Brest_KLA', 'Lorient_KMA', typ='VerifMixed', mode='p1', bw=200e9),    # mode WITH penalties
@@ -398,16 +399,35 @@ def sheet_builder(rows):
     from harness.tlc import BUILD
     from gnpy.tools.json_io import load_requests
 
+    cache = {}
+
+    def template():
+        """the sheets of the shipped workbook as lists of rows (read once); the Service sheet up to its header row"""
+        if not cache:
+            wb = openpyxl.load_workbook(TD / 'ila_constraint.xlsx', read_only=True)
+            for ws in wb:
+                rws = [list(r) for r in ws.iter_rows(values_only=True)]
+                width = max((max((i + 1 for i, v in enumerate(r) if v is not None), default=0) for r in rws), default=0)
+                rws = [r[:width] for r in rws]
+                if ws.title == 'Service':
+                    hdr = next(i for i, r in enumerate(rws) if r and r[0] == 'route id')
+                    rws = rws[:hdr + 1]
+                cache[ws.title] = rws
+        return cache
+
     def build(ids):
         BUILD.mkdir(exist_ok=True)
         tmp = Path(tempfile.mkdtemp(prefix='sheet-', dir=BUILD))
         try:
-            wb = openpyxl.load_workbook(TD / 'ila_constraint.xlsx')
-            ws = wb['Service']
-            hdr = next(i for i, r in enumerate(ws.iter_rows(values_only=True), 1) if r and r[0] == 'route id')
-            ws.delete_rows(hdr + 1, ws.max_row)
-            for i in ids:
-                ws.append(list(rows[i]))
+            wb = openpyxl.Workbook()
+            wb.remove(wb.active)
+            for title, rws in template().items():
+                ws = wb.create_sheet(title)
+                for r in rws:
+                    ws.append(r)
+                if title == 'Service':
+                    for i in ids:
+                        ws.append(list(rows[i]))
             f = tmp / 'batch.xlsx'
             wb.save(f)
             try:
